@@ -875,9 +875,12 @@ bytes g_shadow(c10::DATA);
 obs_t execute(const image_t& im, const op_t& op, std::size_t n, bool end_aligned)
 {
     // same bytes, two placements
+    // the accessible memory around the image is zero, like a page opened after
+    // a fault: whatever the code derives from bytes that are not part of the
+    // vector stays small, so a stray access stays inside the arena
     char* p;
-    std::memset(c10::g_data, 0xEE, c10::DATA);
-    std::memset(g_shadow.data(), 0xEE, c10::DATA);
+    std::memset(c10::g_data, 0, c10::DATA);
+    std::memset(g_shadow.data(), 0, c10::DATA);
     if(end_aligned)
     {
         p = c10::g_data_end - n;
